@@ -33,7 +33,24 @@ search.Ingestor.FetchAsyncSearchResult live and over EVERY vector of per-shard s
 (EmitPVec): where the model's answer is done the proxy must report done, and every answer that reports
 done must be the proxy's synchronous Search over all shards and the AggCases reference (a done flag
 that is not the model's is a violation exactly when the answer it vouches for is incomplete); some
-shards get a first replica that never saw the request.  (B2) one real request runs under strace; the observed system calls on the
+shards get a first replica that never saw the request.  (B1q, the queue - AsyncSearch.tla Acquire / Occ*: the
+searcher has `par` worker slots (AsyncSearcherConfig.Parallelism) and NOcc other requests; a request that
+StartSearch has accepted WAITS for a slot (ph = "queued") for as long as the searches before it take; TLC decides
+the store-level invariants plus KnownIsPersisted, QueuedIsPersisted, SlotsBounded and EventuallyDone with a crash in
+every state, and must refute "the worker persists the request once it has a slot") every job whose last captured
+fraction is the active one replays one queue behaviour (a history of the model whose crash finds the request
+queued behind `par` running searches, or running with others queued behind it): the running requests are really
+held before their last fraction (hook pf.read), the queued ones are really started on the real searcher with
+Parallelism = par, the directory as it then is is the crash image, MustStartAsync over it must know, resume and
+finish EVERY accepted request with the synchronous result, and the request's files at the crash and at the end
+must be the model's.  (B1s, the start at the proxy - AsyncSearch.tla Holder / Refused / PErr / PAcked: every shard
+has NRep replicas, each accepts or refuses the StartAsyncSearch call; TLC decides PStartedEverywhere,
+PStartIffAccepted, PStartReturns and the proxy invariants for EVERY vector of accepting replicas of 2x2, 2x3 and
+3x2 shards x replicas, and must refute "a shard whose replicas all refuse is passed over") every shard job drives
+the real search.Ingestor.StartAsyncSearch over its real stores behind scripted replicas for every emitted vector in
+which some shard has no accepting replica and a share of the others: the client must get the id exactly when the
+model says so; an id is followed through FetchAsyncSearchResult until done and must be the synchronous answer.
+(B2) one real request runs under strace; the observed system calls on the
 request's directory must be the model's operation order for every file (incl. both fsyncs)."""
 import hashlib
 import json
@@ -45,7 +62,7 @@ import vlib
 
 LEVEL = "model_checking"
 
-INVS = ("TypeOK FinalFilesComplete DoneImpliesSyncResult SyncIsRef PartialWithinFinal AckedRequestSurvives "
+INVS = ("TypeOK FinalFilesComplete DoneImpliesSyncResult SyncIsRef PartialWithinFinal AckedRequestSurvives KnownIsPersisted QueuedIsPersisted SlotsBounded "
         "PersistedPartialsSurvive DoneIsDurable NoPartialLostOrDuplicated PersistedNeverRedone EventuallyDone").split()
 
 
@@ -105,6 +122,66 @@ def _proxy_vectors(ctx, quick):
         if n != len(CLASSES) ** ns:
             raise vlib.Infra("AsyncSearch.tla emitted %d of %d shard vectors for %d shards" % (n, len(CLASSES) ** ns, ns))
     return [table[k] for k in sorted(table)], raw
+
+
+def _start_vectors(ctx, quick):
+    """The start at the proxy: for every vector of accepting replicas the outcome of Ingestor.StartAsyncSearch
+    as the spec decides it (EmitStart), for 2 shards x 2 / 3 replicas and 3 shards x 2 replicas."""
+    table, raw = {}, 0
+    for cfg in ("AsyncSearch_pstart22%s.cfg", "AsyncSearch_pstart23%s.cfg", "AsyncSearch_pstart32%s.cfg"):
+        cfg = cfg % ("q" if quick else "")
+        r = vlib.run_tlc(ctx, "AsyncSearch.tla", cfg, timeout=3000)
+        if r.violated:
+            raise vlib.Infra("TLC: %s violated in AsyncSearch.tla (%s) - the required design itself is refuted" % (r.violated, cfg))
+        vlib.require_tlc_ok(r, "AsyncSearch " + cfg)
+        raw += len(r.cases)
+        for c in r.cases:
+            key = "%dx%d:%s" % (c["ns"], c["nrep"], "/".join("".join("a" if x else "r" for x in sh) for sh in c["acc"]))
+            e = {"ns": c["ns"], "nrep": c["nrep"], "acc": c["acc"], "ok": c["ok"], "errShard": c["errShard"], "calls": c["calls"], "key": key}
+            if table.setdefault(key, e) != e:
+                raise vlib.Infra("AsyncSearch.tla gives two outcomes of the start for %s" % key)
+    for ns, nrep in ((2, 2), (2, 3), (3, 2)):
+        n = sum(1 for e in table.values() if (e["ns"], e["nrep"]) == (ns, nrep))
+        if n != 2 ** (ns * nrep):
+            raise vlib.Infra("AsyncSearch.tla emitted %d of %d start vectors for %d shards x %d replicas" % (n, 2 ** (ns * nrep), ns, nrep))
+    return [table[k] for k in sorted(table)], raw
+
+
+def _queue_behaviours(ctx, quick):
+    """Histories with other requests and `par` worker slots whose crash finds no goroutine inside an atomic
+    write (CrashPoints = "quiet"); kept are the ones a real searcher can be held in: the request waits for a
+    slot or stands before its last fraction, every slot-holder stands before its last fraction, and nobody is
+    queued while a slot is free.  One per (fractions, par, where the request is, states of the other requests)."""
+    table, raw = {}, 0
+    for nf in (1, 2, 3):
+        cfg = "AsyncSearch_qemit%d%s.cfg" % (nf, "" if quick else "t")
+        r = vlib.run_tlc(ctx, "AsyncSearch.tla", cfg, timeout=3000)
+        if r.violated:
+            raise vlib.Infra("TLC: %s violated in AsyncSearch.tla (%s)" % (r.violated, cfg))
+        vlib.require_tlc_ok(r, "AsyncSearch " + cfg)
+        raw += len(r.cases)
+        for b in r.cases:
+            if len(b["steps"]) != 1 or b["steps"][0]["ev"] != "crash":
+                continue
+            st = b["steps"][0]
+            at, occ = st["at"], st["occ"]
+            if at["n"] != -1 or not (at["ph"] == "queued" or (at["ph"] == "frac" and at["f"] == b["nf"])):
+                continue
+            running = occ.count("run") + (1 if at["ph"] == "frac" else 0)
+            queued = occ.count("queued") + (1 if at["ph"] == "queued" else 0)
+            if running > b["par"] or (queued > 0 and running != b["par"]):
+                continue
+            key = (b["nf"], b["par"], at["ph"], tuple(occ))
+            e = {"nf": b["nf"], "par": b["par"], "at": at, "occ": occ, "img": st["img"], "final": b["final"]}
+            if table.setdefault(key, e) != e:
+                raise vlib.Infra("AsyncSearch.tla gives two images / final directories for the queue state %s" % (key,))
+    out = [table[k] for k in sorted(table)]
+    out.sort(key=lambda b: hashlib.sha1(json.dumps(b, sort_keys=True).encode()).hexdigest())
+    for i, b in enumerate(out):
+        b["id"] = i
+    if not any(b["at"]["ph"] == "queued" and "queued" in b["occ"] for b in out):
+        raise vlib.Infra("AsyncSearch.tla emitted no history with two requests waiting for a slot at the crash")
+    return out, raw
 
 
 def _behaviours(ctx, quick):
@@ -224,23 +301,32 @@ def run(ctx):
     _design(ctx, "AsyncSearch_design.cfg" if quick else "AsyncSearch_design3.cfg")
     _design(ctx, "AsyncSearch_corpora2.cfg" if quick else "AsyncSearch_corpora3.cfg")
     _design(ctx, "AsyncSearch_shcorporaq.cfg" if quick else "AsyncSearch_shcorpora.cfg")
+    _design(ctx, "AsyncSearch_queue.cfg" if quick else "AsyncSearch_queue3.cfg")
     if not quick:
         _design(ctx, "AsyncSearch_shards3t.cfg")
     pvecs, praw = _proxy_vectors(ctx, quick)
     pf = os.path.join(ctx.scratch, "pvecs.jsonl")
     vlib.write_jsonl(pf, pvecs)
+    svecs, sraw = _start_vectors(ctx, quick)
+    sf = os.path.join(ctx.scratch, "svecs.jsonl")
+    vlib.write_jsonl(sf, svecs)
     # 2. non-vacuity of the invariants (spec mutations that must be refuted)
     ctx.cov["refuted_spec_mutations"] = [
         _must_refute(ctx, "AsyncSearch_mut_order.cfg", ("FinalFilesComplete",)),
         _must_refute(ctx, "AsyncSearch_mut_nosync.cfg", ("FinalFilesComplete",)),
         _must_refute(ctx, "AsyncSearch_mut_interval.cfg", ("DoneImpliesSyncResult", "PartialWithinFinal")),
         _must_refute(ctx, "AsyncSearch_mut_donelast.cfg", ("PDoneImpliesSyncResult",)),
+        _must_refute(ctx, "AsyncSearch_mut_latepersist.cfg", ("AckedRequestSurvives",)),
+        _must_refute(ctx, "AsyncSearch_mut_startignore.cfg", ("PDoneImpliesSyncResult", "PStartedEverywhere")),
     ]
     # 3. behaviours
     behs, raw = _behaviours(ctx, quick)
     bf = os.path.join(ctx.scratch, "behs.jsonl")
     vlib.write_jsonl(bf, behs)
     per_nf = {nf: sum(1 for b in behs if b["nf"] == nf) for nf in (1, 2, 3)}
+    qbehs, qraw = _queue_behaviours(ctx, quick)
+    qf = os.path.join(ctx.scratch, "qbehs.jsonl")
+    vlib.write_jsonl(qf, qbehs)
     # 4. corpora / queries / aggregations: the C06 case stream
     cf = os.path.join(ctx.scratch, "agg.jsonl")
     r = vlib.run_tlc(ctx, "AggCases.tla", "AggCases_rand.cfg", case_file=cf, simulate="num=%d" % (60 if quick else 700), depth=50,
@@ -256,6 +342,7 @@ def run(ctx):
     take = 6 if quick else 8
     jobs = []
     nshard = {2: 0, 3: 0}
+    nqueue = 0
     for i, ln in enumerate(cases):
         hsh = int(hashlib.sha1(("%d:%d" % (ctx.seed, i)).encode()).hexdigest()[:8], 16)
         # the proxy over 2 / 3 shards: a quarter of the jobs whose corpus can fill two shards
@@ -266,10 +353,13 @@ def run(ctx):
                 ghost = (hsh >> 19) % (1 << shards)
             perm = (hsh >> 22) % 12
             nshard[shards] += 1
-        jobs.append('{"case":%s,"take":%d,"pick":%d,"dup":%s,"sealLast":%s,"storeRestart":%s,"proxy":%s,"asc":%s,"pipe":%s,"shards":%d,"ghostMask":%d,"perm":%d}' % (
+        # the queue: the slots can only be kept busy at an active fraction
+        queue = 0 if (hsh >> 1) % 2 else 1
+        nqueue += queue
+        jobs.append('{"case":%s,"take":%d,"pick":%d,"dup":%s,"sealLast":%s,"storeRestart":%s,"proxy":%s,"asc":%s,"pipe":%s,"shards":%d,"ghostMask":%d,"perm":%d,"queue":%d}' % (
             ln, take, i * take // 2, "true" if i % 4 == 3 else "false", "true" if (hsh >> 1) % 2 else "false",
             "true" if (hsh >> 3) % 3 == 0 else "false", "true" if (hsh >> 6) % 5 == 0 else "false",
-            "true" if (hsh >> 9) % 2 else "false", "true" if (hsh >> 12) % 3 == 0 else "false", shards, ghost, perm))
+            "true" if (hsh >> 9) % 2 else "false", "true" if (hsh >> 12) % 3 == 0 else "false", shards, ghost, perm, queue))
     jf = os.path.join(ctx.scratch, "jobs.jsonl")
     with open(jf, "w") as fh:
         fh.write("\n".join(jobs) + "\n")
@@ -278,7 +368,7 @@ def run(ctx):
     chunk = 300    # a stopped in-process store leaks file descriptors: a fresh driver process every 300 stores
     covf = os.path.join(ctx.scratch, "covered.txt")
     pcovf = os.path.join(ctx.scratch, "pcovered.txt")
-    mism, summ, _ = vlib.run_cases(ctx, drv, ["-workers", str(vlib.NCPU), "-behs", bf, "-cov", covf, "-pvecs", pf, "-pcov", pcovf], jf,
+    mism, summ, _ = vlib.run_cases(ctx, drv, ["-workers", str(vlib.NCPU), "-behs", bf, "-cov", covf, "-pvecs", pf, "-pcov", pcovf, "-qbehs", qf, "-svecs", sf], jf,
                                    label="async", timeout=3400, chunk=chunk)
     cov_ids = set()
     if os.path.exists(covf):
@@ -286,11 +376,15 @@ def run(ctx):
             cov_ids = set(fh.read().split())
     for k in tot:
         tot[k] += summ[k]
-    pcov, pstat = set(), {}
+    pcov, pstat, qcov, scov = set(), {}, set(), set()
     if os.path.exists(pcovf):
         with open(pcovf) as fh:
             for ln in fh:
-                if ln.startswith("#stats"):
+                if ln.startswith("#qcov"):
+                    qcov |= set(ln.split()[1:])
+                elif ln.startswith("#scov"):
+                    scov |= set(ln.split()[1:])
+                elif ln.startswith("#stats"):
                     for kv in ln.split()[1:]:
                         k, v = kv.split("=")
                         pstat[k] = max(pstat.get(k, 0), int(v)) if k == "fds" else pstat.get(k, 0) + int(v)
@@ -321,6 +415,20 @@ def run(ctx):
         vlib.log("[c19] note: %d of %d shard vectors replayed" % (len(pcov), len(pvecs)))
     if sum(nshard.values()) and not mism and pstat.get("vectors", 0) == 0:
         raise vlib.Infra("the shard stage replayed no vector")
+    ctx.cov["queue"] = {"behaviours_emitted": qraw, "behaviours_distinct": len(qbehs), "behaviours_replayed_distinct": len(qcov), "jobs": nqueue,
+                        "replayed": pstat.get("queueBehaviours", 0), "queued_requests_restarted": pstat.get("queuedRequestsRestarted", 0),
+                        "jobs_without_active_fraction": pstat.get("queueSkipped", 0)}
+    ctx.cov["proxy_start"] = {"vectors_emitted": sraw, "vectors_distinct": len(svecs), "vectors_with_a_refusing_shard": sum(1 for v in svecs if not v["ok"]),
+                              "vectors_replayed_distinct": len(scov), "starts": pstat.get("startVectors", 0), "starts_refused": pstat.get("startRefused", 0)}
+    if not mism:
+        if nqueue and pstat.get("queuedRequestsRestarted", 0) == 0:
+            raise vlib.Infra("the queue stage restarted no queued request")
+        if sum(nshard.values()) and pstat.get("startRefused", 0) == 0:
+            raise vlib.Infra("the start stage drove no start that a shard refuses")
+        if len(qcov) < len(qbehs):
+            vlib.log("[c19] note: %d of %d queue behaviours replayed" % (len(qcov), len(qbehs)))
+        if sum(nshard.values()) and len(scov) < len(svecs):
+            vlib.log("[c19] note: %d of %d start vectors replayed" % (len(scov), len(svecs)))
     ctx.cov["evaluations"] = tot["evals"]
     ctx.cov["distinct_nontrivial"] = tot["nontrivial"]
     ctx.cov["exhaustive"] = True
@@ -332,7 +440,10 @@ def run(ctx):
                        "every fourth job has a document in two fractions; order asc/desc, last fraction active/sealed, searcher-only or whole-store restarts "
                        "are drawn from the seed. evaluations = legs whose finished result was compared with Searcher.SearchDocs over the captured "
                        "fractions (+ AggCases reference when no document is duplicated); non-trivial = legs that resumed from an image holding some but not all "
-                       "partial results (or a real interruption)" % (1 if quick else 2, take))
+                       "partial results (or a real interruption). queue behaviour = history of AsyncSearch.tla with Parallelism 1..%d and %d other requests (not started / "
+                       "queued / running / finished) whose crash finds the request waiting for a slot or before its last fraction, reduced to the states a real searcher can "
+                       "be held in; one per job with an active last fraction. start vector = accept / refuse for every replica of 2x2, 2x3, 3x2 shards x replicas: all vectors "
+                       "with a refusing shard and 10 of the others per shard job" % (1 if quick else 2, take, 2 if quick else 3, 2 if quick else 3))
     ctx.assumptions += [
         "a crash keeps completed operations; data written but not fsynced may be absent, cut or complete; a rename without directory fsync may or may not have happened (no reordering across an fsync)",
         "crash images are built from the real files of completed legs (a partial result is kept or removed, a temp file is a whole/half/empty copy); the only real interruption is the one before the last captured fraction when it is the active one (hook pf.read); there is no hook inside mustWriteFileAtomic, its operation order is observed with strace on one request per run",
@@ -342,5 +453,11 @@ def run(ctx):
         "with persisted .qpr files moved out of the directory; 'all processed, not yet marked' is the real done answer with Done=false; a vector is "
         "replayed by giving every shard's recorded answer to the real Ingestor.FetchAsyncSearchResult (a pure function of the answers); other shards "
         "are abstract in the model (k processed of n, done) on the strength of the store-level invariants; a store that is down fails the whole fetch (no claim)",
-        "one request at a time per directory; request ids that are prefixes of each other (glob <id>*.qpr) are not exercised",
+        "request ids that are prefixes of each other (glob <id>*.qpr) are not exercised; several requests share a directory only in the queue stage",
+        "queue stage: the other requests of the searcher are abstract in the model (not started / queued / running / finished; by the store-level invariants each of them is "
+        "persisted and comes back queued after a crash); on the real searcher they are requests with the same query, all of them judged; a slot-holder is held before its last "
+        "captured fraction, so crash states in which a slot is free while a request is still queued (a transient of the scheduler) are not held; the crash is a byte copy of "
+        "the directory while every goroutine of the searcher is blocked, the abandoned searcher is drained afterwards",
+        "start stage: a replica that refuses StartAsyncSearch returns a gRPC error (Unavailable, Internal, DeadlineExceeded, ResourceExhausted, Unknown, Aborted in turn) and has "
+        "never heard of the search afterwards (NotFound); the replicas of a shard are scripted fronts of the one real store of that shard; a shard without replicas is not exercised",
     ]
